@@ -223,7 +223,7 @@ Definition init_world (g : genesis) : world :=
     last_pow := ∅;
     last_total := 0;
     dels := list_to_map (map (fun p => (fst p, snd p * dec_one)) vs);
-    ubq := [];
+    ubq := ∅;
     params := default_params g |} in
   let l := {|
     infos := ∅;
@@ -271,7 +271,7 @@ Definition project_state (c : chain) : list row :=
   ++ [Row 8 (flatten_pairs (sort_by pidx_le (pidx s)))]
   ++ [Row 9 (flat_map (fun id => [id; default 0 (last_pow s !! id)]) (sorted_keys (last_pow s)))]
   ++ [Row 10 [last_total s]]
-  ++ map (fun sl => let '(t, h, ids) := sl in Row 11 (t :: h :: ids)) (ubq s)
+  ++ map (fun sl => let '(t, h, ids) := sl in Row 11 (t :: h :: ids)) (sorted_slots (ubq s))
   ++ [Row 12 [sp_unbonding_time (params s); sp_max_validators (params s); sp_max_entries (params s);
               sp_historical_entries (params s); sp_bond_denom (params s); default (-1) (sp_min_commission (params s))]]
   ++ map (fun k => match infos (sl c) !! k with
